@@ -109,7 +109,7 @@ CHECK_DEADLOCK FALSE
     tab = core.tlc_table(ctx, "GuardIO", ioc, env={"TIER": ctx.tier, "BODY": str(bf)}, timeout=2400)
     # harness builder agrees with the specification's Protect (same inputs -> same bytes)
     for row in tab:
-        if row["kind"] in ("none", "stored"):
+        if row["kind"] in ("none", "stored", "stored_minus1"):
             mine, _ = refguard.protect(bodies[row["body"] - 1], B(row["key"]), row["opts"], row["stored"])
             if L(mine) != row["area"]:
                 raise core.MachineryError(f"ref/guard.py disagrees with GuardR.Protect for keylen {row['keylen']} opts {row['opts']}")
@@ -170,7 +170,7 @@ CHECK_DEADLOCK FALSE
         bi = rng.choice([0, 1])
         area, stored = refguard.protect(bodies[bi], key, opts)
         if kind == "stored":
-            area, stored = refguard.protect(bodies[bi], key, opts, stored + rng.choice([1, 2, 255, -1]))
+            area, stored = refguard.protect(bodies[bi], key, opts, stored + rng.choice([1, -1, -1, 2, 255]))
         jobs2.append(({"body": bi + 1, "area": L(area), "key": L(key), "keylen": n, "opts": opts, "kind": kind, "stored": stored, "reportable": kind == "none"}, "raw", rng.choice(["zero", "mid", "end"]), rng.randrange(1 << 30)))
     with mp.get_context("fork").Pool(14) as pool:
         results2 = pool.map(one, jobs2, chunksize=1)
